@@ -147,7 +147,6 @@ func (loop *EventLoop) setImmediate(call goja.FunctionCall) goja.Value {
 			args = append(args, call.Arguments[1:]...)
 		}
 		f := func() { fn(nil, args...) }
-		loop.jobCount++
 		return loop.vm.ToValue(loop.addImmediate(f))
 	}
 	return nil
@@ -419,9 +418,14 @@ func (loop *EventLoop) addImmediate(f func()) *Immediate {
 	i := &Immediate{
 		job: job{fn: f},
 	}
-	loop.addAuxJob(func() {
+	if loop.addAuxJob(func() {
 		loop.doImmediate(i)
-	})
+	}) {
+		loop.jobCount++
+	} else {
+		// the loop is terminated: the callback will never run
+		i.cancelled = true
+	}
 	return i
 }
 
